@@ -2,6 +2,7 @@ package main
 
 import (
 	"fmt"
+	"sort"
 	"go/token"
 	"go/types"
 
@@ -51,27 +52,85 @@ func ruleMergingScope(c *Ctx) {
 			resetAlways = false
 		}
 	}
-	n := 0
-	for _, f := range c.P.SrcFuncs {
-		if !c.P.inModule(f) || f.Pkg != c.P.Main {
-			continue
+	// values that carry the flag: loads of DB.isMerging, phis that merge constants selected under a test of a
+	// carrier (countFlag := A; if isMerging { countFlag = B }), conversions/negations, and parameters that
+	// receive a carrier at some call site
+	carrier := map[ssa.Value]bool{}
+	for changed := true; changed; {
+		changed = false
+		mark := func(v ssa.Value) {
+			if v != nil && !carrier[v] {
+				carrier[v] = true
+				changed = true
+			}
 		}
+		for _, f := range c.P.SrcFuncs {
+			if !c.P.inModule(f) || f.Pkg != c.P.Main {
+				continue
+			}
+			instrs(f, func(in ssa.Instruction) {
+				switch x := in.(type) {
+				case *ssa.UnOp:
+					if x.Op == token.MUL && isFieldLoad(x, "DB", "isMerging") {
+						mark(x)
+					} else if carrier[x.X] && x.Op == token.NOT {
+						mark(x)
+					}
+				case *ssa.Phi:
+					// a phi of constants placed where the arms of a carrier test join
+					for _, e := range x.Edges {
+						if carrier[e] {
+							mark(x)
+						}
+					}
+					if bt, ok := x.Type().Underlying().(*types.Basic); ok && bt.Info()&types.IsBoolean != 0 {
+						for _, pb := range x.Block().Preds {
+							for _, ifi := range ifsOf(f) {
+								if !carrier[ifi.Cond] {
+									continue
+								}
+								for si := range ifi.Block().Succs {
+									if ifi.Block().Succs[si] == pb || ifi.Block() == pb {
+										mark(x)
+									}
+								}
+							}
+						}
+					}
+				case ssa.CallInstruction:
+					for _, cal := range c.P.Callees(x) {
+						if !c.P.inModule(cal) || cal.Blocks == nil {
+							continue
+						}
+						params := cal.Params
+						args := x.Common().Args
+						if x.Common().IsInvoke() && len(params) > 0 {
+							params = params[1:]
+						}
+						for ai, a := range args {
+							if carrier[a] && ai < len(params) {
+								mark(params[ai])
+							}
+						}
+					}
+				}
+			})
+		}
+	}
+	n := 0
+	var fns []*ssa.Function
+	for _, f := range c.P.SrcFuncs {
+		if c.P.inModule(f) && f.Pkg == c.P.Main {
+			fns = append(fns, f)
+		}
+	}
+	sort.Slice(fns, func(i, j int) bool { return fnKey(fns[i]) < fnKey(fns[j]) })
+	for _, f := range fns {
 		k := 0
 		for _, ifi := range ifsOf(f) {
-			a := decomposeIf(ifi)
-			uses := false
-			for _, v := range []ssa.Value{a.X, a.Y} {
-				if v != nil && isFieldLoad(v, "DB", "isMerging") {
-					uses = true
-				}
-			}
-			if !uses {
-				// conditions like `flag && other`: the flag load feeds a phi/binop that is the condition
-				backSlice(ifi.Cond, func(v ssa.Value) {
-					if isFieldLoad(v, "DB", "isMerging") {
-						uses = true
-					}
-				})
+			uses := carrier[ifi.Cond]
+			if b, ok := ifi.Cond.(*ssa.BinOp); ok && (b.Op == token.EQL || b.Op == token.NEQ) && (carrier[b.X] || carrier[b.Y]) {
+				uses = true
 			}
 			if !uses {
 				continue
@@ -79,7 +138,7 @@ func ruleMergingScope(c *Ctx) {
 			n++
 			k++
 			c.touch(f)
-			detail := fmt.Sprintf("test #%d of DB.isMerging controls nothing that outlives the merge", k)
+			detail := fmt.Sprintf("test #%d of DB.isMerging (or of a flag derived from it) controls nothing that outlives the merge", k)
 			if resetAlways {
 				c.ok(fnName(f), detail, c.P.ipos(ifi), "Merge clears the flag on every exit")
 				continue
@@ -91,6 +150,10 @@ func ruleMergingScope(c *Ctx) {
 						switch x := in.(type) {
 						case *ssa.Store:
 							if al, ok := x.Addr.(*ssa.Alloc); ok && !al.Heap {
+								continue
+							}
+							// the one thing the flag is for: the valid-key counter of a B+ tree
+							if fa, ok := x.Addr.(*ssa.FieldAddr); ok && fieldVarOf(fa).Name() == "ValidKeyCount" {
 								continue
 							}
 							if offender == nil {
@@ -112,10 +175,10 @@ func ruleMergingScope(c *Ctx) {
 				}
 			}
 			if offender == nil {
-				c.ok(fnName(f), detail, c.P.ipos(ifi), "the test only selects a constant")
+				c.ok(fnName(f), detail, c.P.ipos(ifi), "the test only selects a constant or adjusts the valid-key counter")
 			} else {
 				c.bad(fnName(f), detail, c.P.ipos(offender),
-					"behaviour is made conditional on DB.isMerging, but Merge does not clear the flag on its success path: after the first successful Merge the flag stays set, so this branch ("+shortInstr(offender)+") applies to every later transaction on the handle, not only to the merge rewrite")
+					"behaviour is made conditional on DB.isMerging (directly or through a flag computed from it, such as the count flag handed to BPTree.Insert), but Merge does not clear DB.isMerging on its success path: after the first successful Merge the flag stays set, so this branch ("+shortInstr(offender)+") applies to every later transaction on the handle, not only to the merge rewrite")
 			}
 		}
 	}
